@@ -329,7 +329,7 @@ def judge_record(
         chk.violation(f"record_not_json:{fam}:{what}", "the formatted access record is not a JSON object", w)
         return None
     chk.hit("record_schema_validated")
-    obs_text = observed.get("message") if observed else None
+    obs_text = (observed.get("message") if observed.get("message") is not None else observed.get("server_text")) if observed else None
     sentinel = rec.get("truncated") == "record_too_large"
     for sp, message in schema_errors(rec):
         cause = f"exception_text={msg_class(obs_text)}" + (":sentinel_record" if sentinel else "")
@@ -569,8 +569,19 @@ def run_socket(chk: Check, cap: Capture, program: dict[str, Any], cfg: dict[str,
         with rig.open_transport(program, cfg, lambda msg: logs.append(rig.norm_log(msg))) as (proxy, impl):
             trace = rig.run_calls(proxy, program, collect_log=logs, calls=[call])[0]
             dispatched = any(e[0] in ("unary", "init") and e[1] == call["m"] for e in impl.inv)
-        # open_transport joined the serve thread: every record of this connection has been emitted
+        # open_transport joined the serve thread (5 s cap): every record of this connection has normally been
+        # emitted.  Under heavy load the join may time out, so wait for the logical event (a record arriving)
+        # before judging "none"; the generous deadline is only a watchdog.
         lines = cap.since(start)
+        if not lines and dispatched:
+            import time
+
+            deadline = time.monotonic() + 30.0
+            while not lines and time.monotonic() < deadline:
+                time.sleep(0.02)
+                lines = cap.since(start)
+            if lines:
+                chk.hit("socket_record_arrived_after_wait")
         if not dispatched:
             chk.skip("socket_call_not_dispatched")
             continue
@@ -585,7 +596,8 @@ def run_socket(chk: Check, cap: Capture, program: dict[str, Any], cfg: dict[str,
             observed = {"type": etype, "message": full}
         elif server_errs and m["kind"] != "unary":
             # the server failed (init error on a header-less stream) but the client never read the reply
-            observed = {"unobservable": "socket_lazy_init_error_never_read_by_client"}
+            # (the text of the server-side exception, from the vgi_rpc.rpc error log, still names the cause class)
+            observed = {"unobservable": "socket_lazy_init_error_never_read_by_client", "server_text": server_errs[-1][3]}
         outcome = "error" if err_ev is not None else ("cancel" if cancelled else "ok")
         text_cls = msg_class(observed.get("message")) if observed and not observed.get("unobservable") else "none"
         chk.case(f"{fam}:{cfg['kind']}|{what}|{outcome}|text={text_cls}|{level}|hdr={'H' if m.get('header') else '-'}")
@@ -695,7 +707,7 @@ def main(tier: str, seed: int) -> int:
         "server-side message = exception_message the server serialised into the EXCEPTION batch (HTTP) / RpcError text after '<Type>: ' (sockets)",
     ]
     shapes = shape_programs() + [huge_program()]
-    ngen = 60 if tier == "quick" else 1500
+    ngen = _ngen(tier)
     progs = shapes + gen_programs(seed, ngen)
     nsh = shard.ncpu()
     nshards = max(1, min(len(progs), nsh * (1 if tier == "quick" else 3)))
@@ -718,3 +730,47 @@ def main(tier: str, seed: int) -> int:
     chk.exhaustive["random_programs"] = False
     chk.sample({"shape_tags": [p["tag"] for p in shapes]})
     return chk.finish()
+
+
+def _ngen(tier: str) -> int:
+    return 120 if tier == "quick" else 1500
+
+
+def replay(path: str) -> int:
+    """Re-run the witnesses' (program, configuration) legs; exit 1 when the recorded key fires again."""
+    import re
+    import warnings
+
+    warnings.filterwarnings("ignore")
+    with open(path) as fh:
+        rp = json.load(fh)
+    progs = {p["tag"]: p for p in shape_programs() + [huge_program()] + gen_programs(int(rp["seed"]), _ngen(rp["tier"]))}
+    chk = Check(PID, rp["tier"], int(rp["seed"]))
+    cap = Capture()
+    for w in rp.get("witnesses", []):
+        program = progs.get(w.get("tag"))
+        if program is None:
+            continue
+        label = str(w.get("cfg"))
+        level = w.get("access_level", "INFO")
+        m = re.match(r"http:cap=(\w+):comp=(\w+)", label)
+        if m:
+            capname, comp = m.group(1), m.group(2)
+            caps = {"none": [None], "large": [100_000], "tiny": [700, 1200, 2500]}[capname]
+            for capv in caps:
+                cfg: dict[str, Any] = {"kind": "http", "app_kwargs": {} if capv is None else {"max_response_bytes": capv}, "cap": capname, "comp": comp, "label": label}
+                if comp == "zstd":
+                    cfg["request_compression"] = 1
+                run_http(chk, cap, program, cfg, level)
+        else:
+            scfg: dict[str, Any] = {"kind": label}
+            if label == "shm":
+                scfg["shm_size"] = 1 << 17
+            run_socket(chk, cap, program, scfg, level)
+    fired = rp["key"] in chk.violations
+    print(f"replay of {rp['key']}: {'fires again' if fired else 'did not fire'}; keys seen: {sorted(chk.violations)}")
+    if fired:
+        print(f"VIOLATION property={PID} replay={path}")
+        return 1
+    print(f"[{PID}] replay did not reproduce (inconclusive)")
+    return 2
